@@ -82,6 +82,8 @@ func checkC16(w *World, r *Report) {
 	r.Rule("S1", 10, "sibling agreement: the five integrations produce the same verdict vector")
 	r.Rule("PS", 15, "no state outside the request: the integration packages declare no package-level variables and every ScopeMiddleware/Handle call builds its configuration from a fresh literal")
 	ruleNoPackageState(w, r, "PS")
+	r.Rule("P8", 5, "every configured middleware runs: the integrations never identify a user callback by its code pointer (closures of one factory share it)")
+	r.Try(func() { ruleNoCallbackIdentity(w, r, "P8") })
 	r.Rule("P7", 3, "a scope whose creation fails is closed before the error reaches the middleware's error handler (ownership of the cancel function and of the partial scope)")
 	r.Try(func() { ruleCancelOwnership(w, r, "P7") })
 	r.Rule("ISO", 5, "requests share no mutable resolution state: cached analysis records and invokers are written only while under construction (record-confinement part of R09.1)")
